@@ -9,7 +9,8 @@ CONSTANTS MaxKeys, MaxPage, Export
 VARIABLES keys, prefixGiven, size, pages, cursor, acc, pc
 svars == <<keys, prefixGiven, size, pages, cursor, acc, pc>>
 
-KeySeqs == UNION { { [i \in 1..n |-> [under |-> f[i][1], suf |-> f[i][2], n |-> i]] : f \in [1..n -> BOOLEAN \X BOOLEAN] }
+KeySeqs == UNION { { [i \in 1..n |-> [under |-> f[i][1], suf |-> f[i][2], n |-> i]]
+                       : f \in [1..n -> BOOLEAN \X {"end", "mid", "none"}] }
                     : n \in 0..MaxKeys }
 
 Init ==
@@ -20,7 +21,7 @@ Init ==
 
 ListPage ==
   /\ pc = "listing" /\ cursor <= Len(pages)
-  /\ acc' = acc \o SelectSeq(pages[cursor], LAMBDA k : k.suf)
+  /\ acc' = acc \o SelectSeq(pages[cursor], HasSuffix)
   /\ cursor' = cursor + 1
   /\ UNCHANGED <<keys, prefixGiven, size, pages, pc>>
 ListDone ==
@@ -31,6 +32,6 @@ Next == ListPage \/ ListDone
 Spec == Init /\ [][Next]_svars /\ WF_svars(Next)
 
 Inv_Result == pc = "done" => acc = Listing(keys, prefixGiven)
-Inv_Partial == \A i \in DOMAIN acc : acc[i].suf /\ Matches(acc[i], prefixGiven)
+Inv_Partial == \A i \in DOMAIN acc : HasSuffix(acc[i]) /\ Matches(acc[i], prefixGiven)
 Live_Done == <>(pc = "done")
 =============================================================================
